@@ -50,7 +50,7 @@
     differential history runs against the map oracle (vlib/c11.py). *)
 From Coq Require Import List NArith ZArith String Bool Lia.
 From Kismet Require Import Pure.Hash FS.Fs FS.Prog Spec.Wp Ops.Ops Conc.Effect Proofs.HashProofs Proofs.NeverMasked
-  Proofs.KvFacts Seq.Plain Seq.Steps Seq.Bind Seq.Sane Proofs.KvSeq Proofs.KvShard Proofs.KvTemp Proofs.KvCap Proofs.KvHist Proofs.KvShardOthers Proofs.KvShardKey.
+  Proofs.KvFacts Seq.Plain Seq.Steps Seq.Bind Seq.Sane Proofs.KvSeq Proofs.KvShard Proofs.KvTemp Proofs.KvCap Proofs.KvHist Proofs.KvShardOthers Proofs.KvShardKey Proofs.ShardCap Pure.Trigger.
 Import ListNotations.
 
 Theorem C11_sorted_pair : forall hash sec n, let '(a, b) := shard_ids hash sec n in a <> b.
@@ -488,3 +488,23 @@ Example C11_sharded_example :
   r = Ok tt /\ name_of (w_fs w1) (da ++ ["a"%string]) = None /\ name_of (w_fs w1) (db ++ ["a"%string]) = Some 5%nat /\
   match r2 with Ok (Some fd) => fdino (w_fs w2) fd = Some 5%nat | _ => False end.
 Proof. vm_compute. repeat split; try reflexivity. discriminate. Qed.
+
+(** "explainable evictions" in a sharded cache are judged against each shard's
+    capacity: it is the declared total (raised to the number of shards, itself at
+    least two) divided by the number of shards and rounded UP - at least one, enough
+    for the shards together to hold the total, and the least such capacity. *)
+Theorem C11_shard_capacity_is_the_quotient_rounded_up : forall n total,
+  let n' := sharded_num_shards n in
+  let t := sharded_total n total in
+  let c := sharded_shard_capacity n total in
+  (1 <= c /\ t <= n' * c /\ n' * (c - 1) < t)%N.
+Proof. exact shard_capacity_is_ceiling. Qed.
+
+Theorem C11_shards_cover_the_declared_total : forall n total,
+  (total <= sharded_num_shards n * sharded_shard_capacity n total)%N.
+Proof. exact shards_cover_the_declared_total. Qed.
+
+Example C11_shard_capacity_example :
+  sharded_shard_capacity 4 9 = 3%N /\ sharded_shard_capacity 3 10 = 4%N /\ sharded_shard_capacity 4 8 = 2%N /\
+  sharded_shard_capacity 4 1 = 1%N /\ sharded_shard_capacity 0 5 = 3%N.
+Proof. vm_compute. repeat split. Qed.
